@@ -522,3 +522,63 @@ def r11k(ctx: Ctx, modules: tuple[str, ...] = ("cirkit.backend.torch.parameters"
                                 obs.append(viol("R11k", f.qualname, "shift:finite", f"`{unparse(c)[:60]}` subtracts a max-shift that is not made finite (clamp / nan_to_num / where): an all -inf row evaluates to nan instead of -inf -- integrate of a Categorical unit without support then poisons the whole partition function", site))
     obs.append(ok("R11k", "cirkit.backend.torch", "hand-written-shifts", f"{n} hand-written max-shift(s) outside the semirings", "", nontrivial=False))
     return obs
+
+
+INF_LOGS = {"log", "log1p", "log2", "log10"}
+PROB_CLAMPS = {"clamp", "clamp_min", "clamp_max", "clip", "clamp_probs", "nan_to_num", "maximum", "minimum"}
+
+
+def r11l(ctx: Ctx, modules: tuple[str, ...] = ("cirkit.backend.torch.layers",)) -> list[Ob]:
+    """R11l -- no `count * log(p)` with an unclamped p in a log-likelihood.
+
+    A log-likelihood that multiplies an input-derived factor (a count ``x``, ``n - x``) by the
+    logarithm of a parameter-derived probability evaluates ``0 * -inf = nan`` at an *in-support*
+    point as soon as the probability rounds to 0 or 1 (a sigmoid saturates at |theta| ~ 17 in
+    float32): the state x = n of a Binomial unit with p == 1.  The factor has to be combined with
+    ``torch.xlogy`` / ``xlog1py``, or the argument of the logarithm clamped away from 0
+    (``clamp`` / ``clamp_probs``, which is what ``torch.distributions`` does)."""
+    obs: list[Ob] = []
+    n = 0
+    for f in ctx.repo.iter_functions():
+        if not f.module.name.startswith(modules) or f.name not in ("forward", "log_unnormalized_likelihood", "log_likelihood", "log_prob"):
+            continue
+        cps = [p_ for p_ in f.call_params if p_.kind == "pos"]
+        if not cps:
+            continue
+        inp = cps[0].name
+        ld = LocalDefs(f.node)
+
+        def from_input(e: ast.AST) -> bool:
+            return any(isinstance(x, ast.Name) and x.id == inp for ex in ld.expand(e) for x in ast.walk(ex)) or any(isinstance(x, ast.Name) and x.id == inp for x in ast.walk(e))
+
+        def inf_log(e: ast.AST) -> ast.Call | None:
+            for ex in [e, *ld.expand(e)]:
+                for c in ast.walk(ex):
+                    if not isinstance(c, ast.Call):
+                        continue
+                    nm = c.func.attr if isinstance(c.func, ast.Attribute) else (c.func.id if isinstance(c.func, ast.Name) else "")
+                    if nm not in INF_LOGS:
+                        continue
+                    arg = c.args[0] if c.args else (c.func.value if isinstance(c.func, ast.Attribute) else None)
+                    if arg is None:
+                        continue
+                    inner = {(_c.func.attr if isinstance(_c.func, ast.Attribute) else getattr(_c.func, "id", "")) for a in [arg, *ld.expand(arg)] for _c in ast.walk(a) if isinstance(_c, ast.Call)}
+                    if inner & PROB_CLAMPS:
+                        continue
+                    if from_input(arg):
+                        continue  # the log of the input itself (a density of x), not of a parameter
+                    return c
+            return None
+
+        for b in walk_no_nested(f.node):
+            if isinstance(b, ast.BinOp) and isinstance(b.op, ast.Mult):
+                for fac, lg in ((b.left, b.right), (b.right, b.left)):
+                    if isinstance(lg, ast.BinOp):
+                        continue
+                    c = inf_log(lg)
+                    if c is not None and from_input(fac) and not any(isinstance(k, ast.Call) and (k.func.attr if isinstance(k.func, ast.Attribute) else getattr(k.func, 'id', '')) in INF_LOGS for k in ast.walk(fac)):
+                        n += 1
+                        obs.append(viol("R11l", f.qualname, f"zero-times-log:{unparse(b)[:40]}", f"`{unparse(b)[:80]}` multiplies an input-derived factor by `{unparse(c)[:50]}`, the unclamped logarithm of a parameter: at the in-support point where the factor is 0 and the probability has rounded to 0 / 1 this is 0 * -inf = nan (use torch.xlogy / xlog1py, or clamp the probability as torch.distributions does)", f"{f.module.relpath}:{b.lineno}"))
+                        break
+    obs.append(ok("R11l", "cirkit.backend.torch.layers", "count-times-log", f"{n} product(s) of an input-derived factor with an unclamped log of a parameter", "", nontrivial=False))
+    return obs
